@@ -15,11 +15,12 @@ import (
 )
 
 // C20: every selectable engine against the Lean sorted-map reference + iterator wrapper model.
-//   open                                  fresh engines (rocksdb, pebble, mem radix/btree/skiplist)
-//   put k v | del k | delrange a b | merge k n     buffered in one write batch per engine
-//   commit | clear
-//   get k | exist k
-//   iter <min|*> <max|*> <type 0..3> <offset> <count> <rev>   keys (and values) through NewDBRangeLimitIteratorWithOpts
+//
+//	open                                  fresh engines (rocksdb, pebble, mem radix/btree/skiplist)
+//	put k v | del k | delrange a b | merge k n     buffered in one write batch per engine
+//	commit | clear
+//	get k | exist k
+//	iter <min|*> <max|*> <type 0..3> <offset> <count> <rev>   keys (and values) through NewDBRangeLimitIteratorWithOpts
 func init() { register(&Proto{Name: "engine", Gen: genEngine, New: newEngine}) }
 
 type engInst struct {
@@ -273,11 +274,11 @@ func newEngine(c *Ctx) func(string) string {
 		return "ok"
 	}
 	var ref *refEngine
-	trigInBatch := false           // this session committed a batch in which a delete-range covered a key put earlier in the same batch
-	var pendingPuts [][]byte       // keys put in the open batch
+	trigInBatch := false     // this session committed a batch in which a delete-range covered a key put earlier in the same batch
+	var pendingPuts [][]byte // keys put in the open batch
 	pendingTrig := false
-	var seenKeys [][]byte          // keys written in this session
-	prefixTaint := false           // two keys of this session are prefix-related (radix known finding (b))
+	var seenKeys [][]byte // keys written in this session
+	prefixTaint := false  // two keys of this session are prefix-related (radix known finding (b))
 	noteKey := func(k []byte) {
 		for _, o := range seenKeys {
 			if bytes.Equal(o, k) {
@@ -289,7 +290,7 @@ func newEngine(c *Ctx) func(string) string {
 		}
 		seenKeys = append(seenKeys, append([]byte{}, k...))
 	}
-	opTaint := false               // this op's bounds are prefix-related to a key of the session (same radix finding)
+	opTaint := false // this op's bounds are prefix-related to a key of the session (same radix finding)
 	boundTaint := func(b []byte) {
 		for _, o := range seenKeys {
 			if !bytes.Equal(o, b) && (bytes.HasPrefix(o, b) || bytes.HasPrefix(b, o)) {
